@@ -63,6 +63,39 @@ fn families() -> Vec<(&'static str, Vec<Vec<(&'static str, VariantType)>>)> {
     ]
 }
 
+/// A database-known, never-serialized property of `class` with a value of its type (BasePart.Position ...), if there is one.
+fn nonserializing_for(class: &str, r: &mut Rng) -> Option<(String, Variant)> {
+    let db = dbwalk::db();
+    if !db.classes.contains_key(class) {
+        return None;
+    }
+    let mut c: Vec<(String, VariantType)> = dbwalk::all_props(db, class)
+        .into_iter()
+        .filter_map(|(_, d)| {
+            let name: &str = d.name.as_ref();
+            match dbwalk::resolve(db, class, name) {
+                Some(rs) if matches!(rs.ser, dbwalk::Ser::No) && !rs.via_alias => dbwalk::vtype(d).map(|t| (name.to_owned(), t)),
+                _ => None,
+            }
+        })
+        .filter(|(_, t)| matches!(t, VariantType::Vector3 | VariantType::Float32 | VariantType::Bool | VariantType::Int32 | VariantType::String | VariantType::CFrame))
+        .collect();
+    c.sort_by(|a, b| a.0.cmp(&b.0));
+    if c.is_empty() {
+        return None;
+    }
+    let (n, t) = r.pick(&c).clone();
+    let v = match t {
+        VariantType::Vector3 => Variant::Vector3(Vector3::new(1.0, 2.0, 3.0)),
+        VariantType::Float32 => Variant::Float32(1.5),
+        VariantType::Bool => Variant::Bool(true),
+        VariantType::Int32 => Variant::Int32(3),
+        VariantType::String => Variant::String("ns".into()),
+        _ => Variant::CFrame(CFrame::new(Vector3::new(1.0, 2.0, 3.0), Matrix3::identity())),
+    };
+    Some((n, v))
+}
+
 /// Classes whose own default for a property differs from the default an ancestor records for it (found by walking the
 /// database; NegateOperation over PartOperation at the pinned version): the gap value must be the nearest one.
 fn override_families() -> Vec<(&'static str, Vec<Vec<(&'static str, VariantType)>>)> {
@@ -192,6 +225,13 @@ fn case(rep: &mut Report, seed: u64, index: u64) {
                 let mut props: Inst = vec![];
                 if large && i + 1 == n {
                     props.push(("ZzOddOneOut".to_owned(), Variant::Int32(77)));
+                }
+                // one instance in six also carries a property the database knows but never serializes (set by a program
+                // that built the tree by hand): skipped by the writer, without any effect on the instance's other properties
+                if r.chance(1, 6) {
+                    if let Some((nm, v)) = nonserializing_for(class, r) {
+                        props.push((nm, v));
+                    }
                 }
                 for logical in fam {
                     if r.chance(1, 2) {
